@@ -191,6 +191,7 @@ FullSync<'a, ItemType, OgreAllocatorType, BUFFER_SIZE, MAX_STREAMS> {
                 #[cfg(feature = "verif")] crate::verif::point(crate::verif::MULTI_FANOUT_BEFORE_PUBLISH);
                 match dispatcher_manager.publish_movable(unsafe { ogre_arc_item.raw_copy() }).0 {
                     Some(len_after_publishing) => {
+                        #[cfg(feature = "verif")] crate::verif::note(crate::verif::MULTI_LEN_AFTER, ((stream_id as u64) << 32) | len_after_publishing.get() as u64);
                         if len_after_publishing.get() <= 1 {
                             #[cfg(feature = "verif")] crate::verif::point(crate::verif::MULTI_FANOUT_BEFORE_WAKE);
                             self.streams_manager.wake_stream(stream_id);
